@@ -227,3 +227,58 @@ PROPS['C15'] = {
                    'real send/recv traced for 0..300 attachments x 5 data shapes'),
     'level_note': 'Trusted: Lean kernel, translator, harness; kernel SCM_RIGHTS truncation behaviour is modelled and exercised, not proved',
 }
+
+
+def router_scen(nseq_q, nseq_t, nrace_q, nrace_t):
+    def f(tier, seed):
+        th = tier == 'thorough'
+        ns, nr = (nseq_t, nrace_t) if th else (nseq_q, nrace_q)
+        out = [{'args': ['router', '--mode', 'seq', '--seed', str(seed + k), '--n', str(ns // 4)]} for k in range(4)]
+        out += [{'args': ['router', '--mode', 'race', '--seed', str(seed + 10 + k), '--n', str(nr // 4)], 'timeout': 2400} for k in range(4)]
+        return out
+    return f
+
+
+def search_router(run):
+    for k in range(4):
+        for mode in ('race', 'seq'):
+            rc, cases, err = vh(['router', '--mode', mode, '--seed', str(900 + k), '--n', '300'], timeout=1200)
+            bad = [c for c in cases if c.get('oracle')]
+            if bad:
+                return {'implementation': bad[0], 'replay_cmd': f'harness/target-default/debug/vh router --mode {mode} --seed {900 + k} --n 300'}
+    return None
+
+
+ROUTER_COMMON = {
+    'search': search_router,
+    'assumptions': ['the event stream handed to the router satisfies the receiver-set contract (C06)',
+                    'the proxy mutex linearises add_route/shutdown calls; crossbeam channels are FIFO'],
+}
+PROPS['C17'] = dict(ROUTER_COMMON, **{
+    'modules': ['IpcModel.Props.C17'],
+    'theorems': ['C17.C17_stopped_shutdown', 'C17.C17_stopped_proxy_drop', 'C17.C17_no_panic', 'C17.C17_late', 'C17.C17_idempotent',
+                 'C17.C17_shutdown_sequential', 'Router.run_stopped'],
+    'scenarios': router_scen(600, 8000, 240, 4000),
+    'rule': ('seq: seeded client scripts of 3..14 operations {add_route, send, drop sender, shutdown, drop proxy} on a fresh RouterProxy with recording callbacks and '
+             'drop guards, quiescence after every step, per-route logs compared with the model; race: 0..8 routes (one callback may re-enter add_route on the router '
+             'thread), traffic thread, 0..2 registering threads, 1..4 concurrent shutdown() callers or a proxy drop, 10 s watchdog, panic hook; '
+             'non-trivial = traffic plus a stop/closure (seq) / every race case; distinct = distinct script or race configuration+log length'),
+    'explanation': ('router thread as a pure event processor: stop theorems (no handler left, drops before the ack, nothing afterwards), no panic under the C06 contract, '
+                    'late routes refused; the closed-system clauses (returns only when stopped, no deadlock) are exercised by the race scenario only'),
+    'level_text': ('Kernel-checked for every router state and event continuation: Shutdown / proxy drop leave no handler, log one drop per handler before the '
+                   'acknowledgement and make every later event a no-op; no panic on contract-respecting streams; routes offered late never reach the router. '
+                   'NOT proved (harness only): shutdown() returns only after the stop and never deadlocks under concurrency and re-entrant callbacks'),
+    'level_note': 'Trusted: Lean kernel, harness; Router::run is hand-modelled (tied by per-route log equality on seeded scripts); mutex/thread interleavings only sampled by the race scenario',
+})
+PROPS['C07'] = dict(ROUTER_COMMON, **{
+    'modules': ['IpcModel.Props.C07'],
+    'theorems': ['C07.C07_dispatch_partial_msg', 'C07.C07_dispatch_partial_closed', 'C07.C07_keys', 'C07.C07_fresh', 'Router.step_fresh'],
+    'scenarios': router_scen(800, 8000, 160, 3000),
+    'rule': PROPS['C17']['rule'],
+    'explanation': ('one-step dispatch theorems (message -> exactly the registered handler, once; closure -> exactly that handler dropped; fresh ids) plus the freshness '
+                    'invariant over all runs; per-route logs of the real router compared with the model; per-route order and single drop checked under concurrency'),
+    'level_text': ('Kernel-checked one-step dispatch theorems and the id-freshness invariant for every router state / event stream (the end-to-end induction over whole '
+                   'histories is not yet a single theorem: partial); real RouterProxy compared with the model on seeded scripts and checked for per-route order, '
+                   'exactly-once and single drop under concurrent registration and traffic'),
+    'level_note': 'Trusted: Lean kernel, harness; relies on C06 for the event stream; crossbeam-forwarding routes are a callback route whose handler forwards (same dispatch path)',
+})
